@@ -10,7 +10,7 @@ import tempfile
 
 from hypothesis import strategies as st
 
-from vfw import dataset, dbdump, faults, gen_records, gen_truth
+from vfw import ambient, dataset, dbdump, faults, gen_records, gen_truth
 from vfw.core import (Part, Violation, Reject, VERIF_DIR, REPO_DIR,
                       exception_signature)
 
@@ -90,7 +90,7 @@ class Machine:
     def __init__(self, case):
         self.case = case
         self.directory = tempfile.mkdtemp(
-            prefix='vfw-c20-', dir=dataset.scratch_root())
+            prefix=ambient.scratch_prefix() + 'c20-', dir=dataset.scratch_root())
         self.db = os.path.join(self.directory, 'data.sqlite3')
         self.loaded = os.path.join(self.directory, 'loaded.sqlite3')
         self.completed = {}      # step -> arg
